@@ -148,8 +148,32 @@ func (ir *initReader) global(g *ssa.Global) *GVal {
 }
 
 // fromCell reads a struct/array value built by field/element stores into addr.
+// refsOf is Referrers() extended to globals (whose uses are found by scanning
+// the package initialiser).
+func (ir *initReader) refsOf(addr ssa.Value) *[]ssa.Instruction {
+	if g, ok := addr.(*ssa.Global); ok {
+		var out []ssa.Instruction
+		if init := g.Pkg.Func("init"); init != nil {
+			allInstrs(init, false, func(in ssa.Instruction) {
+				switch x := in.(type) {
+				case *ssa.FieldAddr:
+					if x.X == addr {
+						out = append(out, in)
+					}
+				case *ssa.IndexAddr:
+					if x.X == addr {
+						out = append(out, in)
+					}
+				}
+			})
+		}
+		return &out
+	}
+	return addr.Referrers()
+}
+
 func (ir *initReader) fromCell(addr ssa.Value) *GVal {
-	refs := addr.Referrers()
+	refs := ir.refsOf(addr)
 	if refs == nil {
 		return nil
 	}
